@@ -20,20 +20,41 @@ ASSUMPTIONS = [
     "does); true multi-process timing is exercised separately in C17",
     "the lattice plug-in engine stands in for an MD engine",
 ]
-MUST_REACH = ["prep_md_items", "treat_output"]
+MUST_REACH = ["engine_exe_dir", "prep_md_items", "treat_output"]
 JOB_TIMEOUT = 2700
 
 
 def plan(tier, seed):
+    import random
     jobs = F.plan_jobs(tier, seed, "C03", quick_jobs=32, thorough_jobs=600)
+    # a real MD engine class (TurtleMD, the repository's double-well example)
+    # in a multi-engine layout ([0-] has its own engine section): the engine
+    # objects themselves must work in the directory of the job they serve
+    rng = random.Random(f"C03t-{seed}")
+    for j in range(4 if tier == "quick" else 40):
+        specs = []
+        for _ in range(2):
+            w = rng.randint(2, 4)
+            specs.append({"engine": "turtlemd", "engine0": True,
+                          "n_intf": 8, "workers": w,
+                          "steps": rng.randint(12, 24),
+                          "seed": rng.randrange(2 ** 31),
+                          "policy": rng.choice(F.POLICIES),
+                          "adv_seed": rng.randrange(2 ** 31),
+                          "maxlength": 2000, "n_jumps": 2,
+                          "moves": ["sh", "sh", "wf", "wf", "sh", "wf", "wf",
+                                    "wf"] if rng.random() < 0.5 else
+                          ["sh"] * 8, "cap": None})
+        jobs.append({"kind": "rig", "hashseed": rng.randrange(1000),
+                     "specs": specs})
     from vf import rig_explore
     jobs += rig_explore.plan(tier, seed)
     return jobs
 
 
 def _mons(spec, cdir):
-    from vf.monitors import LockMonitor
-    return [LockMonitor()]
+    from vf.monitors import LockMonitor, ExeDirMonitor
+    return [LockMonitor(), ExeDirMonitor()]
 
 
 def _nontrivial(rig, spec, mons):
